@@ -134,7 +134,35 @@ def rules(rep, m):
                 continue
             start = "start" in f.name
             order = []
+            conditional = None
+            returned = False
+            order_so_far = []
             for s in kids(f.body):
+                branching = s["kind"] in ("IfStmt", "WhileStmt", "ForStmt", "DoStmt", "SwitchStmt")
+                if s["kind"] == "IfStmt":
+                    # the samplers' own idiom "if (x->is_recording) sample": the flag is on at this point of
+                    # start-recording, and stop-recording with the flag off has nothing to close
+                    cond = strip(kids(s)[0], casts=True)
+                    flag_on = cond.get("kind") == "MemberExpr" and cond.get("name") == "is_recording"
+                    flag_off = cond.get("kind") == "UnaryOperator" and cond.get("opcode") == "!" and \
+                        strip(kids(cond)[0], casts=True).get("kind") == "MemberExpr" and \
+                        strip(kids(cond)[0], casts=True).get("name") == "is_recording"
+                    seen_flag = any(o[0] == "flag" for o in order_so_far)
+                    if flag_on and len(kids(s)) == 2 and (not start or seen_flag):
+                        branching = False
+                    if flag_off and not start and len(kids(s)) == 2 and \
+                            [x["kind"] for x in walk(kids(s)[1]) if x["kind"] not in ("CompoundStmt",)] == ["ReturnStmt"]:
+                        continue
+                for x in walk(s):
+                    hit = (x["kind"] == "BinaryOperator" and x.get("opcode") == "=" and
+                           strip(kids(x)[0], casts=True).get("name") == "is_recording") or \
+                          (x["kind"] == "CallExpr" and callee_ref(x) in ("record_sample", "cmb_timeseries_add"))
+                    if hit and (branching or returned) and conditional is None:
+                        conditional = "inside a %s" % s["kind"] if branching else "after an early return"
+                    if hit and x["kind"] == "BinaryOperator":
+                        order_so_far.append(("flag", None))
+                if any(x["kind"] == "ReturnStmt" for x in walk(s)):
+                    returned = True
                 for x in walk(s):
                     if x["kind"] == "BinaryOperator" and x.get("opcode") == "=" and \
                             strip(kids(x)[0], casts=True).get("name") == "is_recording":
@@ -146,6 +174,11 @@ def rules(rep, m):
             if order != want:
                 rep.finding(r3, f.name, "recording-order", "%s does %s; expected %s" % (f.name, order, want),
                             where=m.rel(f.where))
+                r3.fail()
+            elif conditional:
+                rep.finding(r3, f.name, "recording-conditional", "%s switches the flag / samples only on some paths (%s): "
+                            "the state at the %s of recording can be missing from the history"
+                            % (f.name, conditional, "start" if start else "stop"), where=m.rel(f.where))
                 r3.fail()
             else:
                 r3.ok()
